@@ -17,6 +17,14 @@ CHECKS = {
    text="Bounded symbolic model checking of the status kernels: HTTPStatusCode / WSStatusCode on any uint32 code against the frozen documented tables; encodeGrpcMessage on every byte string up to the bound, decoded back with a reference Percent-Decoder and checked for legal output bytes. (Further protocol clauses are added as the serveGRPC / encError drivers are built.)",
    note="Trusted: go/ssa semantics, engine semantics, z3, exact model of fmt.Sprintf(\"%%%02x\"). Outside: what real clients decode (transports are not encoded), JSON rendering of the status body; Twirp / gRPC-web / WebSocket close-frame clauses are not yet claimed in this revision.",
    design="§4 C05"),
+ "C01": dict(
+   text="Bounded symbolic model checking of the real trie: rule sets are registered with the real addRule (lexTemplate, addVariable, addPath) over fake descriptors, then match (lexPath, search, variable.index, parseParam) runs on a fully symbolic request path; whatever is dispatched must be covered by a rule of that method under an independent reference matcher over the raw path (liberal reading of ':'), with captures byte-equal to the reference captures and no other field set.",
+   note="Trusted: go/ssa semantics, engine semantics (witness replay), z3, the fake descriptor kit, the reference matcher (Appendix C.2). Bounds: curated rule-set family, ASCII paths up to 8 (quick) / 10 (thorough) bytes. Outside: unicode bytes, longer paths, non-string capture conversion, rule sets outside the family.",
+   design="§4 C01"),
+ "C02": dict(
+   text="Same engine run as C01 with the completeness obligations: a rule that matches verb+path under the strict reading implies dispatch to a method owning a matching rule, a literal spelling beats a wildcard/variable at the same top-level position, and a relational harness builds two tries from permuted registration orders and asserts equal dispatch and captures for the same symbolic path.",
+   note="Trusted base as C01. Outside: permutations other than reversal/rotation, domination inside variable patterns (unspecified), unicode, longer paths.",
+   design="§4 C02"),
 }
 
 NOT_APPLICABLE = {
